@@ -259,10 +259,25 @@ func sampleOf(s Scenario, outs []repOut) interface{} {
 }
 
 // pickScenario draws from the generator mix used by C01/C02/C06.
+// denseCases makes one G-general case in four larger than usual (more
+// supplied values, converters and parameters); set per case by the monitors
+// for their thorough tier.
+var denseCases bool
+
+var denseCfg = func() GenCfg {
+	c := defaultCfg
+	c.MaxIn, c.MaxConv, c.MaxTgt = 5, 9, 4
+	c.Names = []string{"a", "b", "c", "d"}
+	return c
+}()
+
 func pickGeneralMix(r *rand.Rand) (Scenario, string) {
 	x := r.Intn(100)
 	switch {
 	case x < 55:
+		if denseCases && r.Intn(4) == 0 {
+			return denseCfg.Scenario(r), "general-dense"
+		}
 		return defaultCfg.Scenario(r), "general"
 	case x < 70:
 		s, fam := Hostile(r)
@@ -295,6 +310,7 @@ func init() {
 		Cases: func(t string) int { return tierN(t, 6000, 150000) },
 		Rule: "cases = G-general (55%) + hostile families (15%) + constructive DAGs (15%) + constructive cyclic single-input sets (15%), " +
 			"each executed R times in fresh worlds; every argument seen by every generated body is checked against the provenance table and the MAY table; " +
+			"half of the repetitions continue on the same objects with Redefine, a call of the redefined function and a second Call; one case in ten supplies the zero value of a type as an input; " +
 			"non-trivial = at least one converter executed with >= 1 argument; distinct = distinct canonical scenario strings",
 		Assumptions: []string{
 			"bodies are generated with reflect.MakeFunc/BuildFunc; the boundary at which arguments are observed is the generated body itself",
@@ -304,6 +320,7 @@ func init() {
 		Run: func(c *CaseCtx) CaseResult {
 			var res CaseResult
 			r := caseRand(c.Seed, "C01", c.Idx)
+			denseCases = c.Tier == "thorough"
 			s, fam := pickGeneralMix(r)
 			res.Key = s.Key()
 			reps := tierReps(c.Tier, 3, 8)
@@ -381,6 +398,7 @@ func init() {
 		Cases:      func(t string) int { return tierN(t, 6000, 150000) },
 		Rule: "same generator mix as C01 with more hostile shapes; a case is in scope when some target parameter is outside the MAY least fix-point; " +
 			"oracle: Err()!=nil, target body never executed, no fabricated argument (C01 monitor), and ErrArgumentUnsatisfied when every converter is MUST-satisfiable; " +
+			"two history families (1 case in 12 each): a target lacking one critical input whose default options share a caller-owned list with another function that IS given that input; a run-once TARGET that succeeded once and is then called without a critical input; " +
 			"non-trivial = underivable parameter for which some label of its type exists in the case (so its vertex is not trivially absent)",
 		Assumptions: []string{
 			"underivable means: outside the least fix-point under the MAY table (a conforming implementation may match fewer pairs than MAY, never more)",
@@ -389,6 +407,7 @@ func init() {
 		Run: func(c *CaseCtx) CaseResult {
 			var res CaseResult
 			r := caseRand(c.Seed, "C02", c.Idx)
+			denseCases = c.Tier == "thorough"
 			if c.Idx%12 == 11 {
 				return runC02SharedDefaults(c, r)
 			}
